@@ -173,7 +173,7 @@ def mixed_spec(rng, i):
 
 
 def run(ctx, rep, model=True):
-    n = 8 if ctx.quick else 60
+    n = 16 if ctx.quick else 80
     for i in range(n):
         spec = make_spec(ctx.rng, i) if i % 2 == 0 else mixed_spec(ctx.rng, i // 2)
         # payload: density small ints, volFrac dyadic fractions in [0,1], one == 1
